@@ -17,8 +17,8 @@ CHECKS = {
              text="Bounded-exhaustive over small configurations (queue size, auto-digest threshold, retention) and all call sequences to depth 7 (quick) / 10 (thorough) incl. raising digesters and sensitive items: TLC evaluates hang-freedom, boundedness, per-item accounting (each item handled at most once, counts add up), toxic-callback and recycling clauses on every recorded edge; the same clauses are evaluated on every distinct history of two real threads (1-3 operations each) scheduled at source-line granularity up to a preemption bound.",
              note="Trusted: TLC/SANY; digester invocations are observed by wrapping the instance's digester table (logging only), the queue content is inferred FIFO and tied to the public sizes by the count clauses; clock and locks substituted by module namespace. max_queue_size >= 2 as in the statement.",
              ref="DESIGN.md section 4 C13"),
- "C14": dict(technique="TLA+ specs (Execute.tla step machine with fault plans; Coordination.tla) model-checked with TLC; every fault plan run on the real CoordinationSystem and judged by TLC (Trace_Execute.tla); controller-level exploration tree judged on the exit-path clauses (Trace_Coordination.tla)",
-             text="Fault enumeration decided by TLC: the whole bounded plan space of execute_operation (request lists incl. repeats, pre-owners, preemption, failing/raising checkpoint per phase, work ok/raise/manual-kill/shutdown/nested preemptor, validate none/true/false/raise) is executed on the real system and every outcome record is judged against the C14 clauses and against the step machine; complete/abort/watchdog exits are judged on the exhaustive controller-level tree.",
+ "C14": dict(technique="TLA+ specs (Execute.tla step machine with fault plans; Coordination.tla) model-checked with TLC; every fault plan run on the real CoordinationSystem and judged by TLC (Trace_Execute.tla); controller-level exploration tree judged on the exit-path clauses (Trace_Coordination.tla); CoordTimed.tla (phases, ticks, watchdog timeouts, manual kill) model-checked, real controller + timed Watchdog explored under a virtual clock and walked by Trace_CoordTimed.tla, TLC -simulate behaviours replayed",
+             text="Fault enumeration decided by TLC: the whole bounded plan space of execute_operation (request lists incl. repeats, pre-owners, preemption, failing/raising checkpoint per phase, work ok/raise/manual-kill/shutdown/nested preemptor, validate none/true/false/raise) is executed on the real system and every outcome record is judged against the C14 clauses and against the step machine; complete/abort/watchdog exits are judged on the exhaustive controller-level tree; watchdog kills for total time / starvation / no progress (with exempt operations) and manual kills are judged on a timed tree (mark/advance/tick/kill added to the alphabet, depth 8 / 10) and on replayed TLC behaviours of CoordTimed.tla.",
              note="Trusted: TLC/SANY, stub work/validate/checkpoint functions, public dataclass fields (ResourceLock.owner/hold_count, active_operations). Quick tier samples the 3-resource plan space (seeded); thorough enumerates it.",
              ref="DESIGN.md section 4 C14"),
  "C15": dict(technique="TLA+ spec (Coordination.tla) model-checked with TLC; real controller+watchdog explored by BFS, check_deadlock() after every call judged by TLC against the history-defined wait-for relation (Trace_Coordination.tla); TLC -simulate behaviours replayed",
@@ -30,15 +30,15 @@ CHECKS = {
              note="Trusted: TLC/SANY, stub agents substituted via public attributes, harness-computed sha256 binding of the token. 'All prompt strings' is sampled; the verdict table is complete.",
              ref="DESIGN.md section 4 C07"),
  "C08": dict(technique="TLA+ spec (GuardLoop.tla: circuit breaker automaton) model-checked with TLC; real loop explored by BFS under a virtual clock with scripted agents, every edge judged by TLC (Trace_GuardLoop.tla) with failure monitors carried by TLC; TLC -simulate behaviours replayed",
-             text="Bounded-exhaustive: all histories to depth 8 (quick) / 10 (thorough) over 7 outcome kinds x 2 prompts, clock advances below/at the recovery timeout and manual reset, for thresholds 1..4, all gate logics, breaker and cache on/off; TLC evaluates NoEarlyTrip, TripsByThreshold, Isolation (no agent call, no energy), ProbeAdmitted, ProbeSuccessCloses, ProbeFailureReopens, BlocksNotFailures, DisabledNeverOpen on every edge.",
+             text="Bounded-exhaustive: all histories to depth 8 (quick) / 10 (thorough) over 7 outcome kinds x 2 prompts, clock advances below/at the recovery timeout and manual reset, for thresholds 1..4, all gate logics, breaker and cache on/off; TLC evaluates NoEarlyTrip, TripsByThreshold, Isolation (no agent call, no energy), ProbeAdmitted (also for a half-open breaker whose earlier probe ended in an intentional block or cache hit), ProbeSuccessCloses, ProbeFailureReopens, BlocksNotFailures, DisabledNeverOpen on every edge.",
              note="Trusted: TLC/SANY, stub agents, virtual clock by namespace substitution, failure classification by scripted verdicts as stated in DESIGN.md section 6.",
              ref="DESIGN.md section 4 C08"),
- "C03": dict(technique="TLA+ spec (Capabilities.tla) model-checked with TLC; real Mitochondria + Nucleus tool loop explored by BFS over registrations and calls on every entry point, every edge judged by TLC (Trace_Capabilities.tla); TLC -simulate behaviours replayed",
-             text="Bounded-exhaustive: all allowed-capability sets over 2-3 capabilities (incl. empty and unrestricted), tools registered and re-registered with every required-capability subset (SimpleTool and duck-typed), all interleavings to depth 5 (quick) / 7 (thorough) of register / metabolize auto / metabolize forced / execute_tool_call / LLM tool loop with a scripted provider / repair; TLC evaluates NoUnauthorisedRun and RefusalReported on every edge from counting tool bodies.",
+ "C03": dict(technique="TLA+ spec (Capabilities.tla) model-checked with TLC; real Mitochondria + Nucleus tool loop explored by BFS over registrations and calls on every entry point, every edge judged by TLC (Trace_Capabilities.tla); TLC -simulate behaviours replayed; CapRace.tla (check / evaluate arguments / execute against atomic re-registration) model-checked and two-thread programs on the real engine under a line-granularity scheduler judged by TLC (Trace_CapRace.tla)",
+             text="Bounded-exhaustive: all allowed-capability sets over 2-3 capabilities (incl. empty and unrestricted), tools registered and re-registered with every required-capability subset (SimpleTool and duck-typed), all interleavings to depth 5 (quick) / 7 (thorough) of register / metabolize auto / metabolize forced / execute_tool_call / LLM tool loop with a scripted provider / repair; TLC evaluates NoUnauthorisedRun and RefusalReported on every edge from counting tool bodies, with the declared requirements carried from the register calls (never read back from the engine). Thread interleavings: a re-registration inserted at every source line of a call on each entry point, plus preemption-bounded and random schedules.",
              note="Trusted: TLC/SANY, counting tool stubs, scripted provider; refusal inside the LLM loop is read from the error text fed back to the provider.",
              ref="DESIGN.md section 4 C03"),
  "C20": dict(technique="TLA+ spec (Genome.tla) model-checked with TLC; real Genome objects (parent + child) explored by BFS, every edge judged by TLC (Trace_Genome.tla) with the last-approved-mutation monitor carried by TLC; TLC -simulate behaviours replayed",
-             text="Bounded-exhaustive: 2-3 genes of all relevant gene types and expression levels, both allow_mutations settings, approval callbacks approving none / some / value-1 / all changes, all sequences to depth 6 (quick, node-capped) / 8 (thorough) over mutate, rollback, re-add, silence/activate/set_expression, replicate with every partial mutation map and express with every context, on parent and child; TLC evaluates Immutable, HashFollowsValues, RefusalsLogged, ParentUntouched, ChildDiffers, ExpressExact, RollbackRestores on every edge.",
+             text="Bounded-exhaustive: 2-3 genes of all relevant gene types and expression levels, both allow_mutations settings, approval callbacks approving none / some / value-1 / all changes, all sequences to depth 6 (quick, node-capped) / 8 (thorough) over mutate, rollback, re-add, silence/activate/set_expression, replicate with every partial mutation map and express with every context, on parent and child; TLC evaluates Immutable, HashFollowsValues, RefusalsLogged, ParentUntouched, ChildDiffers, ExpressExact, RollbackRestores, Independent (an operation on one genome leaves the other's values, levels and hash alone) on every edge.",
              note="Trusted: TLC/SANY, observation through export()/get_hash()/get_statistics()/express(). A refused re-add is not required to be logged (weakest reading, DESIGN.md section 6).",
              ref="DESIGN.md section 4 C20"),
  "C17": dict(technique="TLA+ spec (Surveillance.tla) model-checked with TLC; real TCell and real ImmuneSystem explored by BFS and judged by TLC (Trace_Surveillance.tla) with ground-truth monitors (anomaly streak, remembered threats) carried by TLC; RegulatoryTCell.evaluate table and self-tolerance windows judged by TLC as flat records",
